@@ -162,6 +162,32 @@ fn sweep(sh: &mut Shard) {
                 ],
                 vec![es(index(subj.clone(), int_lit(i)))],
             ];
+            // a string changed in place IS its new content: equal to a literal of it, different from the old one
+            if *is_str {
+                if let Expr::String { value: orig } = subj {
+                    let cs: Vec<char> = orig.chars().collect();
+                    let at = if i < 0 { i + l } else { i };
+                    if at >= 0 && at < l {
+                        let mut e = cs.clone();
+                        e[at as usize] = 'ß';
+                        let expected: String = e.into_iter().collect();
+                        cases.push(vec![
+                            let_("s", subj.clone()),
+                            es(assign(index(id("s"), int_lit(i)), good.clone())),
+                            es(calln(
+                                "print",
+                                vec![
+                                    infix(id("s"), Operator::Eq, string(&expected)),
+                                    infix(string(&expected), Operator::Eq, id("s")),
+                                    infix(id("s"), Operator::Neq, string(&expected)),
+                                    infix(id("s"), Operator::Eq, string(orig)),
+                                    infix(id("s"), Operator::Lte, string(&expected)),
+                                ],
+                            )),
+                        ]);
+                    }
+                }
+            }
             for c in cases.iter_mut() {
                 // a failed access must leave the sequence unchanged: re-read everything afterwards
                 // (the re-read only runs if the access succeeded; the failing variant is checked by
